@@ -78,7 +78,7 @@ func TestVerifC11Shared(t *testing.T) {
 		deep := rng.Intn(100) < 8
 		for k := 0; k < steps; k++ {
 			wantAttach := attached < ninst && (rng.Intn(3) == 0)
-			if wantAttach && !deep && reportsSoFar >= 5 {
+			if wantAttach && !deep && reportsSoFar > 5 { // up to 5 reports fit the ring: the boundary (exactly 5) is generated
 				wantAttach = false
 			}
 			if wantAttach && deep && reportsSoFar < 6 {
